@@ -172,6 +172,17 @@ Theorem C05_generated_mro_is_c3 :
 Proof. vm_compute. exact eq_refl. Qed.
 Print Assumptions C05_generated_mro_is_c3.
 
+(* pickle round trip (any protocol, also through a pickled agent or AgentSet of the model) and copy.deepcopy: the result
+   is a NEW instance of the same class with the same counter and flag, the original is untouched; being an instance like
+   any other, every theorem of this file applies to it from there on - in particular its step is again the counting
+   wrapper (C05_exactly_one, C05_before_user) and it evolves independently of the original (C05_models_independent) *)
+Theorem C05_clone_keeps_counter : forall w i x h,
+  class_of w i = Some (x, h) ->
+  class_of (fst (step w (Clone i))) (zlen (w_insts w)) = Some ({| i_cls := i_cls x; i_st := i_st x |}, h) /\
+  class_of (fst (step w (Clone i))) i = Some (x, h).
+Proof. exact clone_spec. Qed.
+Print Assumptions C05_clone_keeps_counter.
+
 (* T1: the shape of the source the model transcribes, re-read from the source on this run:
    __init__ binds _user_step to self.step and then shadows step on the instance; _wrapped_step is
    `self.steps += 1` followed by `self._user_step( *args, **kwargs)`; run_model is `while self.running: self.step()`;
@@ -256,3 +267,9 @@ Example C05_example_c3 :
   length (family 6) = 1024%nat /\
   fst (step (init [ex_h] [[[2; 1]; [3]; [3]; []]]) (NewInstance 0)) = init [ex_h] [[[2; 1]; [3]; [3]; []]].
 Proof. vm_compute. repeat split; reflexivity. Qed.
+
+(* stepping continues on a restored copy and on the original, each with its own counter *)
+Example C05_example_clone :
+  let w := final (init [ex_loop] []) [NewInstance 0; Step 0 []; Step 0 []; Clone 0; Step 1 []; Step 0 []; Step 0 []] in
+  map (fun x => steps (i_st x)) (w_insts w) = [4; 3].
+Proof. vm_compute. reflexivity. Qed.
